@@ -73,7 +73,7 @@ func (t *Type) AddAttr(attr Attr) error {
 		return fmt.Errorf("jsonapi: attribute name is empty")
 	}
 
-	if GetAttrTypeString(attr.Type, attr.Nullable) == "" {
+	if GetAttrTypeString(attr.Type, false) == "" {
 		return fmt.Errorf("jsonapi: attribute type is invalid")
 	}
 
